@@ -17,11 +17,13 @@ func init() {
 		c14Lock(c)
 		c14RingIndex(c)
 		ringTypeRule(c, "C14/RING-TYPE", []string{"pkg/rtpreceiver", "pkg/rtpreorderer", "pkg/rtplossdetector"}, 1)
+		perPacketRule(c, "C14/PER-PACKET", []string{"pkg/rtpreceiver", "pkg/rtpreorderer", "pkg/rtplossdetector"}, 1)
 		c14ConsecutiveCounter(c)
 	}
 	Registry["C15"] = func(c *Ctx) {
 		c.R.NotDecided = append(c.R.NotDecided, "numerical exactness of the PTS / NTP mapping; placement of late tracks on the leading track's timeline (value level)")
 		ringTypeRule(c, "C15/DELTA-TYPE", []string{"pkg/rtptime", "pkg/rtpreceiver", "pkg/rtpsender", "pkg/ntp"}, 2)
+		anchorGuardRule(c)
 		c15Lock(c)
 	}
 }
@@ -302,5 +304,137 @@ func c14ConsecutiveCounter(c *Ctx) {
 	}
 	if n == 0 {
 		r.Fail("C14/CONSECUTIVE-COUNTER", "consecutive counters", "", "none found: the anchor (negativeCount in Receiver.reorder) moved")
+	}
+}
+
+// perPacketRule (C14/PER-PACKET; added after the seeded change C14-m2 was
+// missed): inside a loop that ranges over a slice whose elements have the type
+// of one of the function's parameters (the reordered packets released by one
+// arriving packet), the body reads the loop element and never that parameter:
+// the statistics kept per delivered packet (extended highest sequence number,
+// cycle count, jitter) must follow the delivered history, not the arrival.
+func perPacketRule(c *Ctx, rule string, rels []string, floor int) {
+	p, r := c.P, c.R
+	r.Rule(rule, "inside a loop over the packets released by one arriving packet, per-packet state is computed from the loop element and never from the arriving packet (the function parameter of the same type)", floor)
+	nloop := map[*ssa.Function]int{}
+	for _, fn := range p.SrcFuncs() {
+		if _, in := inPkgs(fn, rels); !in {
+			continue
+		}
+		for _, b := range fn.Blocks {
+			if b.Comment != "rangeindex.body" {
+				continue
+			}
+			// the ranged slice: the IndexAddr on the loop index in this block
+			var elemT types.Type
+			var ranged ssa.Value
+			for _, in := range b.Instrs {
+				if ia, ok := in.(*ssa.IndexAddr); ok {
+					if sl, ok := ia.X.Type().Underlying().(*types.Slice); ok {
+						elemT = sl.Elem()
+						ranged = ia.X
+						break
+					}
+				}
+			}
+			if elemT == nil {
+				continue
+			}
+			var prm *ssa.Parameter
+			for _, q := range fn.Params {
+				if types.Identical(q.Type(), elemT) {
+					prm = q
+				}
+			}
+			if prm == nil {
+				continue
+			}
+			// loop blocks: dominated by the body block
+			n := 0
+			bad := ""
+			for _, bb := range fn.Blocks {
+				if !b.Dominates(bb) {
+					continue
+				}
+				for _, in := range bb.Instrs {
+					for _, op := range in.Operands(nil) {
+						if *op == ssa.Value(prm) {
+							n++
+							if bad == "" {
+								bad = p.Pos(in.Pos())
+							}
+						}
+					}
+				}
+			}
+			_ = ranged
+			nloop[fn]++
+			construct := fmt.Sprintf("%s packet loop #%d", fnShort(fn), nloop[fn])
+			r.Check(n == 0, rule, construct, p.Pos(b.Instrs[0].Pos()), "the body never reads parameter "+prm.Name(),
+				fmt.Sprintf("the loop body reads the arriving packet (parameter %s) %d time(s), first at %s, instead of the packet being delivered: with reordering, one arrival releases several packets and the per-packet state follows the wrong one", prm.Name(), n, bad))
+		}
+	}
+}
+
+// anchorGuardRule (C15/ANCHOR-GUARD; added after the seeded change C15-m1 was
+// missed): the (wall clock, PTS) anchor of the leading track, which places
+// later tracks on its timeline, is only moved by packets whose PTS equals
+// their DTS: a B-frame, whose timestamp steps backwards, must not re-anchor.
+func anchorGuardRule(c *Ctx) {
+	p, r := c.P, c.R
+	r.Rule("C15/ANCHOR-GUARD", "every store to GlobalDecoder.startPTS / startSystem is reached only where the packet is known to satisfy PTSEqualsDTS (a later track is placed on the leading track's timeline through this anchor; a backward B-frame step must not move it)", 3)
+	for _, fname := range []string{"startPTS", "startSystem"} {
+		f := p.Field("pkg/rtptime", "GlobalDecoder", fname)
+		if !r.Anchor("C15/ANCHOR-GUARD", "rtptime.GlobalDecoder."+fname, f != nil) {
+			continue
+		}
+		n := 0
+		for _, a := range p.FieldAccesses(f) {
+			st, ok := a.Instr.(*ssa.Store)
+			if !ok || !a.Write {
+				continue
+			}
+			n++
+			// no path entry -> store that avoids the true edge of a PTSEqualsDTS call
+			isPED := func(v ssa.Value) bool {
+				call, ok := v.(*ssa.Call)
+				if !ok {
+					return false
+				}
+				name := ""
+				if call.Call.IsInvoke() {
+					name = call.Call.Method.Name()
+				} else if cal := call.Call.StaticCallee(); cal != nil {
+					name = cal.Name()
+				}
+				return name == "PTSEqualsDTS"
+			}
+			found, path, _ := core.PathAvoidingE(a.Fn, nil, func(in ssa.Instruction) bool { return in == ssa.Instruction(st) }, nil, func(x, y *ssa.BasicBlock) bool {
+				iff, ok := x.Instrs[len(x.Instrs)-1].(*ssa.If)
+				if !ok || len(x.Succs) != 2 || x.Succs[0] == x.Succs[1] {
+					return false
+				}
+				cond, pol := iff.Cond, true
+				if u, ok := cond.(*ssa.UnOp); ok && u.Op == token.NOT {
+					cond, pol = u.X, false
+				}
+				if !isPED(cond) {
+					return false
+				}
+				// the edge on which the call returned true is "passed"; we cut it to ask for a route without it
+				passed := x.Succs[0]
+				if !pol {
+					passed = x.Succs[1]
+				}
+				return y == passed
+			})
+			// found = a route exists that never takes a passing edge; but routes that take the failing edge and still reach the store are the bad ones.
+			construct := fmt.Sprintf("%s stores %s #%d", fnShort(a.Fn), fname, n)
+			if found {
+				r.FailPath("C15/ANCHOR-GUARD", construct, p.Pos(st.Pos()), "the anchor is moved on a route where the packet was not checked with PTSEqualsDTS", core.BlockPath(p, a.Fn, path))
+			} else {
+				r.OK("C15/ANCHOR-GUARD", construct, p.Pos(st.Pos()), "reached only through the true edge of PTSEqualsDTS")
+			}
+		}
 	}
 }
